@@ -191,7 +191,7 @@ def main():
         "with an explicit array and start_idx>0 the 'requested range' is arr[start_idx:start_idx+n_tasks]",
         "ModelPool models multiprocess.Pool.map: contiguous chunks, dill round trip per chunk, any chunk order",
     ]
-    return chk.finish()
+    return chk.finish(run_case)
 
 
 def replay(doc):
